@@ -40,6 +40,9 @@ var (
 
 // Render renders this table to a string.
 func (r *TextRenderer) Render(t *Table, w io.Writer) error {
+	if r.Round < -100 || r.Round > 100 {
+		return fmt.Errorf("invalid number of digits %d: must be between -100 and 100", r.Round)
+	}
 	r.table = t
 	color.NoColor = !r.Color
 
